@@ -469,6 +469,7 @@ feederLoop:
 
 		for i, msg := range msgs {
 			child.interceptors(msg)
+			verifHook("cons.feeder.handoff")
 		messageSelect:
 			select {
 			case <-child.dying:
@@ -810,6 +811,7 @@ func (bc *brokerConsumer) subscriptionConsumer() {
 		}
 
 		bc.acks.Add(len(bc.subscriptions))
+		verifHook("cons.broker.fetched")
 		for child := range bc.subscriptions {
 			child.feeder <- response
 		}
